@@ -15,7 +15,7 @@ if !set {
 	continue
 }
 {{if isFloat .Kind -}}
-if {{mathPkg .Kind}}IsNaN(v) || {{mathPkg .Kind}}IsInf(v, {{if eq .ArgX "min"}}-{{end}}1) {
+if ({{mathPkg .Kind}}IsNaN(v) || {{mathPkg .Kind}}IsInf(v, {{if eq .ArgX "min"}}-{{end}}1)) && !({{mathPkg .Kind}}IsNaN(f) || {{mathPkg .Kind}}IsInf(f, {{if eq .ArgX "min"}}-{{end}}1)) { // (the first such element wins, also when it is element 0)
 	{{.ArgX}} = i
 	return {{.ArgX}}
 }
